@@ -3,7 +3,7 @@ import Lattigo.Model.RLWE
 
 /-
   Line-protocol handler of property C03 (encryption / decryption / key generation).
-  Every line carries `n= ci= q= p= maxl= xe=` followed by op-specific `key=value` tokens; polynomials
+  Every line carries `n= ci= q= p= maxl=` (and an informative `xe=`) followed by op-specific `key=value` tokens; polynomials
   are matrices of canonical rows (coefficient domain, Montgomery factor kept), lists of polynomials are
   joined by `|`.
 
@@ -23,7 +23,6 @@ structure Hdr where
   q : List Nat
   p : List Nat
   maxl : Nat
-  xe : RQ.XeKind
 
 def getNat (toks : List String) (k : String) : Option Nat := (kv? toks k).bind (·.toNat?)
 def getBool (toks : List String) (k : String) : Option Bool := (getNat toks k).map (· != 0)
@@ -36,12 +35,7 @@ def parseHdr (toks : List String) : Option Hdr := do
   let q ← getVec toks "q"
   let p ← getVec toks "p"
   let maxl ← getNat toks "maxl"
-  let xe ← match kv? toks "xe" with
-    | some "g" => some RQ.XeKind.gauss
-    | some "tp" => some RQ.XeKind.ternaryP
-    | some "th" => some RQ.XeKind.ternaryH
-    | _ => none
-  some { n, ci, q, p, maxl, xe }
+  some { n, ci, q, p, maxl }
 
 /-- a polynomial whose rows are the first rows of the chain `qs` -/
 def mkRQ (ci : Bool) (qs : List Nat) (m : List (List Nat)) : RQ :=
@@ -98,12 +92,12 @@ def handleEnc (h : Hdr) (toks : List String) : Option String := do
     | none => lc
   let z := zeroRQ h level
   let (key, draws) ← match keyS with
-    | "none" => some (RQ.Key.none, ({ a := z, u := z, e0 := z, e1 := z, xe := h.xe, maxLevel := h.maxl } : RQ.Draws))
+    | "none" => some (RQ.Key.none, ({ a := z, u := z, e0 := z, e1 := z } : RQ.Draws))
     | "sk" => do
         let a ← getQ h toks "a"
         let e0 ← getQ h toks "e0"
         let skq ← getQ h toks "skq"
-        some (RQ.Key.sk skq, { a := a, u := z, e0 := e0, e1 := z, xe := h.xe, maxLevel := h.maxl })
+        some (RQ.Key.sk skq, { a := a, u := z, e0 := e0, e1 := z })
     | "pk" => do
         let u ← getQ h toks "u"
         let e0 ← getQ h toks "e0"
@@ -112,7 +106,7 @@ def handleEnc (h : Hdr) (toks : List String) : Option String := do
         let pk0p ← getP h toks "pk0p"
         let pk1q ← getQ h toks "pk1q"
         let pk1p ← getP h toks "pk1p"
-        some (RQ.Key.pk pk0q pk0p pk1q pk1p, { a := z, u := u, e0 := e0, e1 := e1, xe := h.xe, maxLevel := h.maxl })
+        some (RQ.Key.pk pk0q pk0p pk1q pk1p, { a := z, u := u, e0 := e0, e1 := e1 })
     | _ => none
   match RQ.encryptAt key (!h.p.isEmpty) (h.p.headD 1) lc lp draws pt ct with
   | .err => some "err"
